@@ -190,3 +190,39 @@ def m3c(ctx):
 
 
 RULES = [m1, m2, m3, m3b, m3c]
+
+
+@rule("M5", doc="every match found is applied: the applier loop visits all substitutions; the only skip is the rule's own condition")
+def m5(ctx):
+    crate = ctx.lib()
+    bs = [b for b in crate.by_name.get("apply_substs_cond", []) if b.kind != "Closure"]
+    if len(bs) != 1:
+        raise mir.AnchorMissing("Rewrite::apply_substs_cond")
+    b = bs[0]
+    lp = [l for l in C.iterator_loops(b) if role_mentions_param(l[1], "substs")]
+    ctx.check(len(lp) == 1 and C.loop_exhaustive(b, lp[0]), "all-substitutions-applied", "the applier visits every substitution the searcher found",
+              "the applier of a pattern rule can stop before all substitutions were applied: represented instances do not fire", where_of(b))
+    un = [c for c in b.calls if c.callee and c.callee.name == "union_instantiations"]
+    ctx.floor("union_instantiations calls in the applier", len(un), 1)
+    for c in un:
+        C.check_only_allowed_skips(ctx, b, c.bb, [("true", lambda t, cond: t.startswith("call(cond"))], "applier", "uniting the two sides of a match")
+        a = [strip_role(b.role_of_operand(x)) for x in c.args]
+        ok = a[1] == ("param", "a") and a[2] == ("param", "b") and role_mentions_param(a[3], "substs")
+        ctx.check(ok, "applier-unites-lhs-rhs", "the applier unites pattern a with pattern b under the matched substitution",
+                  "the applier calls union_instantiations(%s, %s, %s)" % (role_str(a[1]), role_str(a[2]), role_str(a[3])[:60]), where_of(b, c.bb))
+    # Rewrite::new_if wires ematch_all(lhs) to the searcher and this applier with the same lhs
+    ni = [x for x in crate.by_name.get("new_if", []) if x.kind != "Closure"]
+    if ni:
+        n = ni[0]
+        srch = [c for sub in n.all_bodies() for c in sub.calls if c.callee and c.callee.name == "ematch_all"]
+        appl = [c for sub in n.all_bodies() for c in sub.calls if c.callee and c.callee.target == b.id]
+        ok = len(srch) == 1 and len(appl) == 1
+        if ok:
+            sp = strip_role(srch[0].body.role_of_operand(srch[0].args[1]))
+            ap = strip_role(appl[0].body.role_of_operand(appl[0].args[2]))
+            # both derive from the parsed left pattern `a` (the applier gets a clone)
+            ok = role_mentions_call(sp, "parse") and role_mentions_call(ap, "parse") and role_str(sp).count("param") == role_str(ap).count("param")
+        ctx.check(ok, "searcher-and-applier-share-lhs", "the searcher matches the same left pattern the applier instantiates", "Rewrite::new_if wires different left patterns into searcher and applier", where_of(n))
+
+
+RULES.append(m5)
